@@ -736,6 +736,23 @@ func TestC20(t *testing.T) {
 		for _, alt := range alternatives[p.String()] {
 			singles = append(singles, Fault{Path: p.String(), Kind: "set", Value: alt, p: p})
 		}
+		// every string value once with text that a layer between the file and the decoder (environment or template expansion,
+		// comment stripping, a second YAML pass) would rewrite: appended to the valid value, and alone.  For free text the
+		// value is legal and must arrive unchanged; for a validated field the result is no valid value and must be rejected
+		if par, last := parent(base(), p); par != nil {
+			var leaf any
+			switch x := par.(type) {
+			case doc:
+				leaf = x[last.(string)]
+			case []any:
+				leaf = x[last.(int)]
+			}
+			if cur, isStr := leaf.(string); isStr {
+				for _, x := range []string{"$x", "${x}", "$HOME", "${PATH}", "$$", " #x", "{{.x}}", "%s", "\\n", ": x"} {
+					singles = append(singles, Fault{Path: p.String(), Kind: "set", Value: cur + x, p: p}, Fault{Path: p.String(), Kind: "set", Value: x, p: p})
+				}
+			}
+		}
 	}
 	// list sizes 0..3
 	for _, lp := range []string{"gtpu.ifList", "dnnList"} {
